@@ -437,7 +437,8 @@ def rule_T10(ctx: Ctx) -> None:
         and X.U(lc[0].generators[0].iter) == "targets"
     ctx.judge(tg, ok, {}, "the target region lists each target cell's coordinate tokens (+ TARGET_POST iff post)")
     cs = ctx.index.func(f"{MT}.MazeTokenizerModular.coords_to_strings")
-    ok = "self.prompt_sequencer.coord_tokenizer.to_tokens(c) for c in coords" in X.U(cs.node)
+    ew = [X.elementwise(c_) for c_ in ast.walk(cs.node)]
+    ok = any(e is not None and X.same_expr(e[0], "self.prompt_sequencer.coord_tokenizer.to_tokens(_x)") and X.U(e[1]) == cs.params()[1] for e in ew)
     ctx.judge(cs, ok, {}, "coords_to_strings uses the tokenizer's own coordinate tokenizer, in order")
     tt = ctx.index.func(f"{MT}.MazeTokenizerModular.to_tokens")
     r = X.returns_of(tt.node)
